@@ -126,6 +126,7 @@ def main():
         ck.finish(BASE_TRUST + JOIN_TRUST)
     tmpd = tempfile.mkdtemp(prefix="lsf_c05_")
     cases, descs = [], []
+    ccases, cdescs = [], []
     not_ended = []
 
     def run_one(kind, n, mc, perm, shape="task", sched="perm"):
@@ -138,11 +139,21 @@ def main():
         info = eg.convert(eg.run_many(definition, [data], worker, tmpd, chooser=chooser))
         d = {"kind": kind, "n": n, "MaxConcurrency": mc, "finish_priority": perm, "shape": shape, "definition": definition, "input": data}
         fin, lau, final, mx = observe(info, n, kind)
+        # the reports of the branches in the order they were handled: the failing reply of a bad item marks its slot, the others deliver outputs
+        caught_events = []
+        bodies = {mid(r["correlation_id"]): (r["body"] or {}) for r in info.world.requests}
+        for st in info.steps:
+            k_, v_ = st["trigger"]
+            if k_ == "reply" and v_ in bodies and st["subject"] is not None and bodies[v_].get("i") is not None:
+                caught_events.append("BCaught %d" % bodies[v_]["i"] if bodies[v_].get("bad") else "BDone %d %d" % (bodies[v_]["i"], bodies[v_]["i"]))
         d.update(finishes=fin, launches=lau, output=final, max_in_flight=mx, status=info.status, exception=info.exception)
         info.world = None
         if final is None or info.status != "quiescent":
             not_ended.append(d)
             return
+        if shape == "caught" and not mc and n > 0 and kind in ("map", "parallel") and caught_events is not None:
+            ccases.append("(%d, [%s], %s)" % (n, "; ".join(caught_events), lst(final)))
+            cdescs.append(d)
         eff_mc = mc or 0
         cases.append("(%d, %d, %s, [%s], %s, %d)" % (eff_mc, n, lst(fin), "; ".join(lst(l) for l in lau[:len(fin) + 1]) if n else "", lst(final), mx))
         descs.append(d)
@@ -233,6 +244,13 @@ def main():
                         ck.replay_extra = d
                         continue
                 ck.violation("%s: %s" % (what[f], json.dumps({k: d[k] for k in ("kind", "n", "MaxConcurrency", "shape", "finish_priority", "finishes", "launches", "output", "max_in_flight")})), {"case": d, "monitor": f})
+    rc = ck.eval_cases("caught", "PyStr Cases Join JoinCaught C05Oracle", "c05c_case", ccases, ["c05_caught_model_ok"], per_file=120, timeout=900, prelude=PRE)
+    if rc is not None:
+        for i in rc["c05_caught_model_ok"][:3]:
+            d = cdescs[i]
+            ck.violation("a fan-out with a failure caught inside a branch did not join exactly at the last report with the outputs in index order (Model/JoinCaught.v): %s"
+                         % json.dumps({k: d[k] for k in ("kind", "n", "shape", "finish_priority", "finishes", "output")}) + " reports=" + ccases[i][:300], {"case": d, "monitor": "c05_caught_model_ok"})
+    ck.add_group("caught_inside_branch", len(ccases), len(ccases), cdescs[:1])
     ck.add_group("nested_joins", nested_runs, nested_runs, [])
     ck.add_group("fanout", len(cases), sum(1 for d in descs if d["n"] >= 2), descs[5:7],
                  map=sum(1 for d in descs if d["kind"] == "map"), parallel=sum(1 for d in descs if d["kind"] == "parallel"),
